@@ -51,7 +51,15 @@ def run(ctx):
     elif len(sweep) > 12000:
         rnd = random.Random(ctx.seed)
         sweep = rnd.sample(sweep, 12000)
-    evals = [T.cps(x) for x in ["a", "aあ1", "あaあa1a", "1a漢b"]]
+    # wide windows (beyond the 8-slot fixed layout) with a corpus whose sentence-final character is only ever seen to the right of
+    # boundaries; evaluation texts that start with that character
+    wide = []
+    for cw, cn, tw, tn in ((8, 1, 8, 1), (9, 2, 3, 1), (12, 1, 1, 1), (3, 1, 9, 2)):
+        for solver in ((1, 5) if q else range(8)):
+            for cname in ("final-period", "untagged", "tagged-ambiguous"):
+                wide.append({"cw": cw, "cn": cn, "tw": tw, "tn": tn, "solver": solver, "cls": classes.index(cname) + 1, "dk": 1})
+    sweep = sweep + wide
+    evals = [T.cps(x) for x in ["a", "aあ1", "あaあa1a", "1a漢b", "。a", "。", "a。あ1aあ。"]]
     send = []
     for i, c in enumerate(sweep):
         corpus, tagdict = T.CLASSES[classes[c["cls"] - 1]]
